@@ -33,7 +33,14 @@ pub fn generate(r: &mut Rng, tier: Tier) -> Scenario {
             let (p, line) = r.pick(&incs).clone();
             if let Some(t) = world.files.get(&p).cloned() {
                 let mut ls: Vec<String> = crate::world::split_lines(&t).iter().map(|s| (*s).to_string()).collect();
-                let dup = ls[line].clone();
+                let mut dup = ls[line].clone();
+                if r.chance(1, 2) {
+                    // the second inclusion spells the path differently
+                    if let Some(name) = crate::world::parse_include(&dup).map(str::to_string) {
+                        let alt = name.strip_prefix("./").map_or_else(|| format!("./{name}"), str::to_string);
+                        dup = dup.replacen(&format!("\"{name}\""), &format!("\"{alt}\""), 1);
+                    }
+                }
                 ls.insert(line + 1, dup);
                 let mut nt = ls.join("\n");
                 if t.ends_with('\n') {
@@ -54,7 +61,7 @@ pub fn generate(r: &mut Rng, tier: Tier) -> Scenario {
     let personality = if world.files.len() > 1 { *r.pick(&[Personality::Strict, Personality::Fresh, Personality::SameId, Personality::Lsp]) } else { *r.pick(&[Personality::Strict, Personality::Lsp]) };
     let t2spec = if t2 {
         let mut modes: Vec<Vec<String>> = Vec::new();
-        for base in [vec!["--json"], vec!["--compact", "--no-color"], vec!["--no-color"]] {
+        for base in [vec!["--json"], vec!["--compact", "--no-color"], vec!["--no-color"], vec!["--yaml", "--no-color"], vec!["--debug", "--no-color"]] {
             let mut m: Vec<String> = base.iter().map(|s| (*s).to_string()).collect();
             modes.push(m.clone());
             if world.files.len() > 1 {
